@@ -15,6 +15,8 @@ package main
 import (
 	"os"
 	"runtime"
+
+	hook "github.com/pion/rtcp/zz_simhook"
 )
 
 const (
@@ -257,7 +259,7 @@ func blockedYield(me int, mustSwitch bool) {
 	}
 	recordSwitch(me, next, true)
 	sSwitches++
-	sCur = next
+	setCur(next)
 	for sCur != me {
 		runtime.Gosched()
 	}
@@ -456,7 +458,7 @@ func switchTo(me, next int, site int, forced bool) {
 		}
 	}
 	sParkSite[me] = int32(site)
-	sCur = next
+	setCur(next)
 	for sCur != me {
 		runtime.Gosched()
 	}
@@ -549,16 +551,16 @@ func schedFinish(me int) {
 				sDeadlock = true
 				sState[i] = stRunnable
 				recordSwitch(me, i, true)
-				sCur = i
+				setCur(i)
 				return
 			}
 		}
-		sCur = -1
+		setCur(-1)
 		return
 	}
 	recordSwitch(me, next, true)
 	sSwitches++
-	sCur = next
+	setCur(next)
 }
 
 // schedSend publishes message (ch, idx) after `delay` further steps.
@@ -639,7 +641,7 @@ func schedRecv(me int, ch, idx int) bool {
 		}
 		recordSwitch(me, next, true)
 		sSwitches++
-		sCur = next
+		setCur(next)
 		for sCur != me {
 			runtime.Gosched()
 		}
@@ -726,13 +728,13 @@ func schedReset(n int, c *SchedConfig) {
 			}
 		}
 	}
-	sCur = c.First
+	setCur(c.First)
 	if sCur < 0 || sCur >= n {
-		sCur = 0
+		setCur(0)
 	}
 	if c.Strat == stratPCT {
 		if b := highestPrio(true, 0); b >= 0 {
-			sCur = b
+			setCur(b)
 		}
 	}
 	sFirst = sCur
@@ -757,3 +759,11 @@ func opHashGet(me int, conc bool) uint64 {
 
 //go:norace
 func setCounting(v bool) { sCounting = v }
+
+// setCur hands the token to task n (and tells the generated hook package, whose Once gates are owned by tasks).
+//
+//go:norace
+func setCur(n int) {
+	sCur = n
+	hook.CurTask = n
+}
